@@ -72,6 +72,8 @@ func (s *SuffrageStateBuilder) Build(
 		}
 
 		lastheight = h
+	case proof == nil:
+		return lastheight, nil, nil, e.Errorf("empty last suffrage proof")
 	default:
 		if err := proof.IsValid(s.networkID); err != nil {
 			return lastheight, nil, nil, e.Wrap(err)
@@ -150,7 +152,7 @@ func (s *SuffrageStateBuilder) buildBatch(
 			switch {
 			case err != nil:
 				return err
-			case !found:
+			case !found, proof == nil:
 				return util.ErrNotFound.Errorf("suffrage proof not found, %d", height)
 			case proof.SuffrageHeight() != height:
 				return errors.Errorf("wrong suffrage height of proof, %d != %d", proof.SuffrageHeight(), height)
